@@ -13,7 +13,8 @@
               "none"   spatialLocator is None
             clad = the child is CLAD-flagged, i.e. its cells are pins (getPinLocations / getPinCoordinates)
      bp     the boundary parameters, by slot (the harness spreads ALL real CORNERS/EDGES parameters over the
-            slots): [kind, v]: a six-vector (one datum per corner/edge, numbered counter-clockwise), or one of the
+            slots): [kind, v]: a six-vector (one datum per corner/edge, numbered counter-clockwise; the datum is a number
+            or, kind "rows", a whole vector: a (6, n) array or six lists/arrays -- the ROW moves), or one of the
             values the code leaves alone: an empty list (not defined yet), a scalar, None, a vector of another length
      disp   displacement vector <<X, Y>> (lattice vector of the "flat" kind) or <<>> when unset (None)
      deg    orientation about z in degrees, kept modulo 360 (the code accumulates without reducing; an angle is
@@ -34,10 +35,12 @@
    k ranges over -K..K: the statement has no bound on k and no restriction on its sign.
 
    PROPERTY CLAUSES -> INVARIANTS (all about the step prev --act--> blocks, or about the state)
-     pins and all grid children move by the lattice rotation ............. CellsFollowGeometry  (centres turn by k*60 ccw)
+     pins and all grid children move by the lattice rotation ............. CellsFollowGeometry  (per child and per site: the
+                                            centre turns by k*60 ccw, whether or not the child is a pin), FamiliesStayDisjoint
      free-coordinate children ............................................. FreePointsFollowGeometry
-     per-corner / per-edge data ............................................ BoundaryDataFollowGeometry (the datum at
-                                            direction d is afterwards found at direction Rot(d)), OtherValuesUntouched
+     per-corner / per-edge data ............................................ BoundaryDataFollowGeometry (the datum -- number
+                                            or whole row -- at direction d is afterwards found at direction Rot(d)),
+                                            OtherValuesUntouched
      displacement vector ................................................... DisplacementFollowsGeometry
      orientation ........................................................... OrientationAdvances
      assembly = every block, block = only that block ....................... OnlyTargetsMove
@@ -67,7 +70,7 @@ CONSTANTS K,           \* rotations by k in -K..K sixty-degree steps
 VARIABLES blocks, tot, err, act, prev
 
 Orients   == {"flat", "corner"}
-LayoutSeq == <<"p1", "p7", "p19", "singles", "mixed", "nogrid">>
+LayoutSeq == <<"p1", "p7", "p19", "singles", "mixed", "nogrid", "prism", "families">>
 NDisp     == 4
 
 (* --------------------------------------------- block layouts --------------------------------------------- *)
@@ -96,14 +99,28 @@ Kids(lay) ==
       [] lay = "mixed"   -> <<Multi(TRUE, << <<1, 0>>, <<2, 0>>, <<0, 1>>, <<-2, 1>> >>), Index(TRUE, <<1, 1>>),
                               Index(FALSE, <<0, 0>>), Coord(<<-3, 1, 0>>), Coord(<<4, -2, 1>>)>>
       [] lay = "nogrid"  -> <<Coord(<<0, 0, 0>>), NoLoc, Coord(<<0, 0, 0>>)>>
+      \* a prismatic / moderator block: a lattice whose children are NOT pins (no child carries a flag that getNumPins counts:
+      \* coolant channels and moderator rods on alternating sites of ring 2 -- two families of equal count --, a single
+      \* channel, two free points).  Nothing in the statement makes the rotation depend on what the children are.
+      [] lay = "prism"   -> <<Multi(FALSE, << <<1, 0>>, <<-1, 1>>, <<0, -1>> >>), Multi(FALSE, << <<0, 1>>, <<-1, 0>>, <<1, -1>> >>),
+                              Index(FALSE, <<2, -1>>), Coord(<<3, 1, 0>>), Coord(<<0, 2, 1>>)>>
+      \* pin families of EQUAL COUNT on disjoint site sets: 3 fuel pins and 3 absorber pins alternating around ring 2
+      \* (both clad-flagged), a third family of 3 on ring 3, a family of another count, one free point
+      [] lay = "families" -> <<Multi(TRUE, << <<1, 0>>, <<-1, 1>>, <<0, -1>> >>), Multi(TRUE, << <<0, 1>>, <<-1, 0>>, <<1, -1>> >>),
+                               Multi(FALSE, << <<2, 0>>, <<-2, 2>>, <<0, -2>> >>), Multi(FALSE, << <<1, 1>>, <<-2, 1>> >>),
+                               Coord(<<2, 0, 0>>)>>
 
 DispOf(di) == << <<2, 0>>, <<3, -1>>, <<>>, <<-1, 3>> >>[di]
-\* a boundary-parameter value: kind "vec" (list / array of any length), "scalar" (v = <<the number>>), "none" (v = <<>>)
+\* a boundary-parameter value: kind "vec" (list / 1-D array of any length), "rows" (one VECTOR per corner/edge: a 2-D array of
+\* shape (6, n), or a list of six lists / arrays; v = the sequence of rows), "scalar" (v = <<the number>>), "none" (v = <<>>)
 Vec(v) == [kind |-> "vec", v |-> v]
+Rows(base, n) == [kind |-> "rows", v |-> [m \in 1..6 |-> [g \in 1..n |-> base + 10 * m + g]]]
 SpecialOf(di) == IF di = 1 THEN Vec(<<>>) ELSE IF di = 2 THEN [kind |-> "scalar", v |-> <<7>>]
                  ELSE IF di = 3 THEN [kind |-> "none", v |-> <<>>] ELSE Vec(<<1, 2, 3, 4>>)
 BpOf(di) == <<Vec(<<11, 12, 13, 14, 15, 16>>), Vec(<<21, 22, 23, 24, 25, 26>>), SpecialOf(di),
-              Vec(<<41, 42, 43, 44, 45, 46>>)>>
+              Vec(<<41, 42, 43, 44, 45, 46>>),
+              Rows(500, ((di - 1) % 3) + 1),        \* 2-D array of shape (6, n), n = 1, 2, 3 (e.g. multi-group corner flux)
+              Rows(600, 2)>>                        \* list of six lists (di odd) / of six arrays (di even)
 
 InitBlock(cf) == [o |-> cf.o, lay |-> cf.lay, di |-> cf.di,
                   kids |-> Kids(cf.lay), bp |-> BpOf(cf.di), disp |-> DispOf(cf.di), deg |-> 0]
@@ -121,7 +138,7 @@ CfgSet == IF TieDi THEN {[o |-> oo, lay |-> l, di |-> TiedDi(oo, l)] : oo \in Or
           ELSE [o : Orients, lay : Layouts, di : 1..NDisp]
 
 (* ----------------------------------------------- rotation ----------------------------------------------- *)
-IsSix(val) == val.kind = "vec" /\ Len(val.v) = 6               \* "a list or array of length 6"
+IsSix(val) == val.kind \in {"vec", "rows"} /\ Len(val.v) = 6    \* "a list or array of length 6" (len() = the first axis)
 RotChild(b, ch, k) ==
     IF b.lay = "nogrid" THEN ch                               \* _rotateChildLocations: spatialGrid is None -> return
     ELSE [ch EXCEPT !.cells = [x \in 1..Len(ch.cells) |-> AlgRot(k % 6, ch.cells[x])],
@@ -181,6 +198,11 @@ CellsFollowGeometry == Rotating => \A b \in Targets : LET new == blocks[b]  old 
         LET p == SymXY(new.o, old.kids[x].cells[y])  q == SymXY(new.o, new.kids[x].cells[y]) IN
         /\ 2 * q[1] = SymRot2(new.o, act.k, p)[1]
         /\ 2 * q[2] = SymRot2(new.o, act.k, p)[2]
+\* children that occupied disjoint site sets still do (two families of equal count must not land on the same sites)
+SitesOf(ch) == {ch.cells[y] : y \in 1..Len(ch.cells)}
+FamiliesStayDisjoint == \A b \in 1..Len(blocks) : \A x, z \in 1..Len(blocks[b].kids) :
+    (x # z /\ SitesOf(prev[b].kids[x]) \cap SitesOf(prev[b].kids[z]) = {}) =>
+        SitesOf(blocks[b].kids[x]) \cap SitesOf(blocks[b].kids[z]) = {}
 FreePointsFollowGeometry == Rotating => \A b \in Targets : LET new == blocks[b]  old == prev[b] IN
     \A x \in 1..Len(new.kids) : new.kids[x].t = "coord" =>
         LET p == old.kids[x].xyz  q == new.kids[x].xyz IN
